@@ -39,11 +39,11 @@ JSignBuild(e) ==
                        ELSE IF m.innerlen < 61 THEN "innershort" ELSE "keylen")),
      R("C02", "signed_constructor_output_decodes_to_model", built /\ r.serok /\ e.fn = "NewRouterInfo",
        LET d == RefRouterInfo(r.ser) IN
-       d.ok /\ d.consumed = Len(r.ser) /\ d.naddr = m.naddr /\ d.optPairs = SortPairs(m.pairs) /\ d.id.st = e.st, cls),
+       d.ok /\ d.consumed = Len(r.ser) /\ d.naddr = m.naddr /\ d.optPairs = SortPairs(m.pairs) /\ d.id.st = declared, cls),
      R("C15", "router_info_published_date_exact", built /\ e.fn = "NewRouterInfo" /\ ~m.pubneg /\ FitsInt64(TimeToDate(m.pubsec, m.pubns)) /\ "published" \in DOMAIN r,
        r.published = PadTo(TimeToDate(m.pubsec, m.pubns), 8), cls),
      R("C02", "signed_leaseset_decodes_to_model", built /\ r.serok /\ e.fn = "NewLeaseSet",
-       LET d == RefLeaseSet(r.ser) IN d.ok /\ d.consumed = Len(r.ser) /\ d.n = m.nleases /\ d.d.st = e.st, cls),
+       LET d == RefLeaseSet(r.ser) IN d.ok /\ d.consumed = Len(r.ser) /\ d.n = m.nleases /\ d.d.st = declared, cls),
      R("C02", "signed_leaseset2_decodes_to_model", built /\ r.serok /\ e.fn = "NewLeaseSet2",
        LET d == RefLeaseSet2(r.ser) IN
        d.ok /\ d.consumed = Len(r.ser) /\ d.nk = m.nkeys + (IF "elgkeys" \in DOMAIN m THEN 1 ELSE 0) /\ d.nl = m.nleases /\ d.optPairs = SortPairs(m.pairs) /\ d.h.flags = m.flags /\ d.h.off = m.off, cls),
